@@ -10,7 +10,7 @@ NAME=${SEED_NAME:-$(basename "$SD")}
 source /verif/env.sh; unset GOCACHE
 WT=/tmp/seedv/$NAME
 rm -rf "$WT"; git -C /repo worktree prune; git -C /repo worktree add -q --detach "$WT" HEAD || exit 2
-trap 'git -C /repo worktree remove --force "$WT" 2>/dev/null; git -C /repo checkout -q -- . 2>/dev/null' EXIT
+trap 'git -C /repo worktree remove --force "$WT" 2>/dev/null' EXIT
 cd "$WT"
 mkdir -p tun/client/ui/build && echo '<html></html>' > tun/client/ui/build/index.html  # untracked dummy: tun/client embeds it
 PKGS=$(grep -o '^+++ b/[^ ]*' "$SD/patch.diff" | sed 's|+++ b/||; s|/[^/]*$||' | sort -u | sed 's|^|./|; s|$|/...|' | tr '\n' ' ')
@@ -40,10 +40,8 @@ echo "== existing tests with patch: ${SEED_TESTS:-$PKGS}"
 timeout 2400 go1.26.8 test -count=1 -vet=off ${SEED_TESTS:-$PKGS} 2>&1 | grep -v "no test files" | tail -8; RT=${PIPESTATUS[0]}
 echo "tests exit=$RT"
 cd /verif
-echo "== check $P $TIER against /repo + patch"
-git -C /repo apply "$SD/patch.diff" || exit 2
-timeout 3000 ./vcheck $P $TIER > /tmp/seedv/$NAME.check.log 2>&1; RC=$?
-git -C /repo checkout -q -- .
+echo "== check $P $TIER against the patched scratch tree (VERIF_REPO=$WT)"
+VERIF_REPO="$WT" VERIF_ALT_OUT=/tmp/seedv/out_$NAME timeout 3000 ./vcheck $P $TIER > /tmp/seedv/$NAME.check.log 2>&1; RC=$?
 grep -c '^VIOLATION' /tmp/seedv/$NAME.check.log; grep 'violation detail' /tmp/seedv/$NAME.check.log | head -3 | cut -c1-300; tail -2 /tmp/seedv/$NAME.check.log | cut -c1-200
 echo "check exit=$RC"
 echo "SUMMARY name=$NAME prop=$P demo_nopatch_exit=${R0:-NA} demo_patch_exit=${R1:-NA} tests_exit=$RT check_exit=$RC tier=$TIER"
